@@ -14,6 +14,7 @@ pub mod history;
 pub mod array_chain;
 pub mod junk_blocks;
 pub mod merge;
+pub mod stage_api;
 pub mod pack;
 pub mod patch;
 pub mod revision;
@@ -22,6 +23,7 @@ pub mod tree;
 pub fn run(name: &str, thorough: bool, seed: u64) -> Option<Report> {
     match name {
         "merge_arrays" => Some(merge::run(thorough, seed)),
+        "stage_api" => Some(stage_api::run(thorough, seed)),
         "junk_blocks" => Some(junk_blocks::run(thorough, seed)),
         "array_chain" => Some(array_chain::run(thorough, seed)),
         "revision" => Some(revision::run(thorough, seed)),
@@ -42,6 +44,7 @@ pub fn run(name: &str, thorough: bool, seed: u64) -> Option<Report> {
 pub fn replay(name: &str, case: &Value) -> Value {
     match name {
         "merge_arrays" => merge::replay(case),
+        "stage_api" => stage_api::replay(case),
         "junk_blocks" => junk_blocks::replay(case),
         "array_chain" => array_chain::replay(case),
         "revision" => revision::replay(case),
